@@ -224,6 +224,16 @@ def judge(cname, name, h, p, ck, settings, wrongs=True):
             if bad is not False:
                 out.append((f"C17|{cname}|verify:{name}:wrong_password_accepted",
                             f"{cname}.verify({q!r} [{label}], {h!r}) = {bad!r}; the hash was made from {p!r}"))
+    if name == "plaintext" and isinstance(h, str) and not h.isascii():
+        # the stored value as BYTES (how a file-backed store such as HtpasswdFile hands it over): a plaintext entry is
+        # not ASCII in general, and every scheme listed before the catch-all one gets to look at it first
+        enc = (ck or {}).get("encoding") or "utf-8"
+        try:
+            hb = h.encode(enc)
+        except UnicodeError:
+            hb = None
+        if hb is not None:
+            out += [(k + ":bytes_hash", d) for k, d in judge(cname, name, hb, p, ck, settings, wrongs=False)]
     return out
 
 
